@@ -18,7 +18,7 @@ STORE_DM = {
 QUEUE_VD = {
     'push_back': 'Q>', 'push_front': 'Q<', 'pop_front': 'Q-front', 'pop_back': 'Q-back', 'remove': 'Q-at',
     'retain': 'Q-key', 'retain_mut': 'Q-key', 'clear': 'Q0', 'len': 'Qlen', 'iter': 'Qiter', 'iter_mut': 'Qiter',
-    'is_empty': 'Qlen', 'insert': 'Q+at', 'swap_remove_back': 'Q-at', 'swap_remove_front': 'Q-at',
+    'is_empty': 'Qlen', 'insert': 'Q+at', 'swap_remove_back': 'Q-swap', 'swap_remove_front': 'Q-swap',
     'truncate': 'Q-*', 'drain': 'Q-*', 'front': 'Qpeek', 'back': 'Qpeek', 'get': 'Qpeek', 'contains': 'Q?',
     'append': 'Q>*', 'extend': 'Q>*', 'split_off': 'Q-*', 'rotate_left': 'Qrot', 'rotate_right': 'Qrot',
     'swap': 'Qrot', 'make_contiguous': 'Qiter', 'as_slices': 'Qiter',
@@ -28,7 +28,8 @@ STATS = {
     'cachelito_core::stats::CacheStats::record_miss': 'miss',
 }
 S_REMOVALS = ('S-', 'S0', 'S-*')
-Q_REMOVALS = ('Q-front', 'Q-back', 'Q-at', 'Q-key', 'Q0', 'Q-*')
+Q_REMOVALS = ('Q-front', 'Q-back', 'Q-at', 'Q-key', 'Q0', 'Q-*', 'Q-swap')
+Q_REORDERING = ('Q-swap', 'Qrot', 'Q+at')
 Q_INSERTS = ('Q>', 'Q<', 'Q+at', 'Q>*')
 
 
